@@ -22,7 +22,7 @@ fn main() {
         if ctx != "-" {
             c = c.user_context_type(ctx);
         }
-        let r = std::panic::catch_unwind(move || c.run());
+        let r = std::panic::catch_unwind(std::panic::AssertUnwindSafe(move || c.run()));
         match r {
             Ok(Ok(())) => println!("OK {dst}"),
             Ok(Err(e)) => println!("ERR {dst} {}", format!("{e:?}").replace('\n', " | ")),
